@@ -119,3 +119,36 @@ Example C11_example :
   | _ => False
   end.
 Proof. vm_compute. repeat split; reflexivity. Qed.
+
+(* ---------- history level ---------- *)
+From HC.Proofs Require Import ProvProofs TimeProofs SrcProofs.
+
+(* Along EVERY sequential history from an empty store, a response returned without contacting the origin is the
+   synthesised 504, or carries the status and body of a stored entry e whose fields and instants are those of origin
+   calls of the history ([Src], see C01_history), exactly one Age value — the age of e at the instant the exchange
+   started (equal to the specification's current age by C11_age_exact), replacing any Age the origin sent —, exactly one
+   status value, HIT or STALE, and X-From-Cache "1". *)
+Theorem C11_history : forall cfg h t0 script k gq obs r,
+  let all := run_history cfg h (init_world t0 script) in
+  let L := flat_map (fun x => x_events x ++ x_bg_events x) all in
+  nth_error h k = Some gq -> nth_error all k = Some obs -> x_result obs = Done (OResp r) -> ~ has_call (x_events obs) ->
+  r = response_504 \/
+  exists e, Src (GXl L) e /\
+    let f := calculate_freshness e (parse_cc (q_hdr (snd gq))) (parse_cc (e_hdr e)) (x_t0 obs) in
+    hvalues (bs "Age") (p_hdr r) = [age_header_value f (x_t0 obs)] /\
+    (hvalues status_header (p_hdr r) = [bs "HIT"] \/ hvalues status_header (p_hdr r) = [bs "STALE"]) /\
+    hvalues from_cache_header (p_hdr r) = [bs "1"] /\
+    p_status r = e_status e /\ p_body r = e_body e.
+Proof.
+  intros cfg h t0 script k gq obs r all L Hk Ho Hr Hnc.
+  destruct (history_safeX L cfg h (init_world t0 script)) as [_ H]; [intros k' e' E; discriminate|apply incl_refl|].
+  destruct (H k gq obs (OResp r) Hk Ho Hr Hnc) as [E|(e & Hs & Hd & E)]; [left; injection E as ->; reflexivity|right].
+  exists e. split; [exact Hs|]. cbv zeta. unfold served_outcome in E.
+  destruct Hd as [Hd|Hd]; rewrite Hd in E.
+  - symmetry in E. destruct (C11_served_fields _ _ _ _ _ E) as (Ha & Hst & Hl & Hp & Hb).
+    split; [exact Ha|split; [|split; [exact Hl|split; [exact Hp|exact Hb]]]].
+    rewrite Hst. destruct (f_expired _); [right|left]; reflexivity.
+  - injection E as ->. cbn [p_hdr response_of entry_with_hdr e_hdr p_status p_body e_status e_body].
+    split; [apply age_values_after_status|split; [right; apply status_values|split; [apply legacy_values|split; reflexivity]]].
+Qed.
+Print Assumptions C11_history.
